@@ -191,3 +191,50 @@ func VerifH14b() {
 	w.checkReads("H14b.reads")
 	nd.Reach("H14b.end")
 }
+
+// VerifH14d: the server restarted with garbage pending. Through the gRPC client and the real
+// start-up of the server (internal/app.New): superseded versions not yet collected and the writes
+// of a transaction that never finished are on disk when the server stops; after the next start-up
+// (Load hands the leftovers to the cleaner), the drained deletions and a collection pass, the
+// roots hold exactly the live contents.
+func VerifH14d() {
+	nd.SetPreemptionBound(0)
+	concreteCounter = true
+	cfg := stdConfig()
+	w := &world{cfg: cfg, keys: []string{"a", "b"}, txs: []*rtx{nil}, vlen: 1}
+	w.d, w.c, _ = openExternal(cfg)
+	nd.Assert(w.doSet(0, "a", w.freshVal(), 0) == nil, "H14d.write")
+	if nd.Choice("overwritten", 2) == 1 {
+		nd.Assert(w.doSet(0, "a", w.freshVal(), 0) == nil, "H14d.overwrite")
+	}
+	if nd.Choice("deleted", 2) == 1 {
+		nd.Assert(w.doSet(0, "b", w.freshVal(), 0) == nil, "H14d.write-b")
+		nd.Assert(w.doDelete(0, "b") == nil, "H14d.delete-b")
+	}
+	if nd.Choice("unfinished-transaction", 2) == 1 {
+		t := w.begin(fs_db.IsoLevelReadCommitted)
+		nd.Assert(w.doSet(t, "b", w.freshVal(), 0) == nil, "H14d.tx-write")
+		w.txs[t].open = false
+		var rest []rver
+		for _, v := range w.vs {
+			if v.owner == 0 {
+				rest = append(rest, v)
+			}
+		}
+		w.vs = rest
+	}
+	if nd.Choice("drained-before-stop", 2) == 1 {
+		verifenv.RunJobs()
+	}
+	// stop (what internal/app.Stop does) and start again
+	w.c.Pool().Stop()
+	nd.Assert(w.c.Badger().Close() == nil, "H14d.stop")
+	newProcess()
+	w.d, w.c, _ = openExternal(cfg)
+	verifenv.RunJobs()
+	w.gc("H14d")
+	verifenv.RunJobs()
+	w.checkDisk("H14d.disk")
+	w.checkReads("H14d.reads")
+	nd.Reach("H14d.end")
+}
